@@ -52,9 +52,10 @@ def serialise(t, prefixes=None, default_ns=None, newline_decls=False, rename=Non
             decl.append('xmlns:%s%s"%s"' % (pm[ns], eq, esc_attr(ns)))
         declared = declared | set(need)
         if root and default_ns and not need: decl.append('xmlns="%s"' % esc_attr(default_ns))
-        sep = '\n    ' if newline_decls else ' '
+        sep = '\n    ' if newline_decls is True else newline_decls if newline_decls else ' '       # (any white space separates attributes)
         atts = ['%s="%s"' % (name(a, True, declared), esc_attr(v)) for a, v in t[2]]
-        out.append('<' + name(t[1], False, declared) + ''.join(sep + x for x in decl + atts))
+        pieces = decl + atts
+        out.append('<' + name(t[1], False, declared) + ''.join((' ' if (i == 0 and newline_decls not in (False, True)) else sep) + x for i, x in enumerate(pieces)))
         if not t[3]:
             out.append('/>'); return
         out.append('>')
